@@ -1049,7 +1049,7 @@ impl<'a> CompilerState<'a> {
                             let start = op.as_span().start();
                             return Err(self.syntax_error("Division by zero", start));
                         }
-                        lhs / d
+                        lhs.checked_div(d).ok_or_else(overflow)?
                     }
                     Rule::add => lhs.checked_add(rhs).ok_or_else(overflow)?,
                     Rule::sub => lhs.checked_sub(rhs).ok_or_else(overflow)?,
